@@ -1286,6 +1286,8 @@ class Exec:
                 return self.ev(node.body, env2, path)
             if tag == "pyfunc":
                 return f[1](self, path, *args, **kw)
+            if tag == "rawfn":
+                return self.call_node(f[1], f[2], args, kw, path, raw=True)
         raise Unsupported("call " + (ast.unparse(e.func) if e is not None else str(f)))
 
     def builtin_type(self, f, args, kw, path):
@@ -1414,14 +1416,27 @@ class Exec:
             args = args[1:]
         return self.call_node(owner, fn, args, kw, path)
 
-    def call_node(self, owner, fn, args, kw, path):
+    def call_node(self, owner, fn, args, kw, path, raw=False):
         env = {"__class__": owner, "__module__": self.cls_mod.get(owner) if owner else self.module_of(fn)}
+        # decorators defined in the repository (cm_class_metric) wrap the function: the decorator is *executed* symbolically
+        # with the undecorated function as argument and the resulting wrapper closure is applied
+        if not raw:
+            for d in fn.decorator_list:
+                dn = d.func if isinstance(d, ast.Call) else d
+                if isinstance(dn, ast.Name) and dn.id not in ("property", "staticmethod", "classmethod", "dataclass", "wraps"):
+                    r = self.scope.get(env["__module__"], {}).get(dn.id) or self.exported.get(dn.id)
+                    if r is not None and r[0] == "func":
+                        rawfn = ("rawfn", owner, fn)
+                        if isinstance(d, ast.Call):
+                            dargs = [self.ev(a, {"__module__": env["__module__"]}, path) for a in d.args]
+                            dkw = {k_.arg: self.ev(k_.value, {"__module__": env["__module__"]}, path) for k_ in d.keywords}
+                            deco = self.apply(r, dargs, dkw, path)
+                            wrapper = self.apply(deco, [rawfn], {}, path)
+                        else:
+                            wrapper = self.apply(r, [rawfn], {}, path)
+                        return self.apply(wrapper, args, kw, path)
+                    raise Unsupported(f"decorator {dn.id}")
         self.bind(fn, args, kw, env, path)
-        # decorators that wrap the function (cm_class_metric): execute the wrapper body
-        for d in fn.decorator_list:
-            dn = d.func if isinstance(d, ast.Call) else d
-            if isinstance(dn, ast.Name) and ("decorator", dn.id) in self.contracts:
-                return self.contracts[("decorator", dn.id)](self, path, owner, fn, d, args, kw)
         self.cur_fn.append(f"{owner}.{fn.name}" if owner else fn.name)
         self.cur_node.append(fn)
         self.depth += 1
